@@ -274,8 +274,114 @@ def run(c, facts, tier):
     except (P.NoEval, P.Panic):
         pass
     vfs = {r_: (facts.fns[sorted(ks)[0]] if len(ks) == 1 and sorted(ks)[0] in facts.fns else None) for r_, ks in applied.items()}
-    if vfs["who"] is None or vfs["perm"] is None:
-        c.ob("C08.who-perm", pp.key, "one letter → bits function", None, "letter functions applied by the clause parser: %s; %s" % ({r_: sorted(ks) for r_, ks in applied.items()}, clause_err))
+    upd = facts.fn("PartialPermission::update")
+    # ---------------------------------------------------------------- concrete letters
+    # Where the letters are not looked up by one `char -> Mode` function (a table of pairs, a lookup returning an Option, a
+    # conversion inside verify_map, …) the clause parser is evaluated on *every* who string and perm string of up to three
+    # letters of the alphabets its character runs accept, composed with update() on an unknown mode, and the result is compared
+    # with chmod bit by bit (the mode taken as all-zeros and all-ones: with bitwise operators only, every bit position then sees
+    # both values of the mode bit next to each constant bit).
+    M0 = P.Opq("mode")
+
+    def tree_int(t, mval):
+        if isinstance(t, bool):
+            raise Unknown("boolean")
+        if isinstance(t, int):
+            return t
+        if isinstance(t, P.Opq):
+            if t is M0:
+                return mval
+            ex = t.expr
+            if ex is None:
+                raise Unknown("unknown %r" % t)
+            if ex[0] == "bin" and ex[1] in ("&", "|", "^", "-"):
+                a_, b_ = tree_int(ex[2], mval), tree_int(ex[3], mval)
+                return {"&": a_ & b_, "|": a_ | b_, "^": a_ ^ b_, "-": a_ & ~b_ & MASK}[ex[1]]
+            if ex[0] == "not":
+                return ~tree_int(ex[1], mval) & MASK
+            if ex[0] == "mcall":
+                r_ = tree_int(ex[2], mval)
+                if ex[1] == "complement" and not ex[3]:
+                    return ~r_ & MASK
+                if ex[1] in ("bits", "clone", "to_owned") and not ex[3]:
+                    return r_
+                if ex[1] in ("union", "intersection", "difference", "symmetric_difference") and len(ex[3]) == 1:
+                    x_ = tree_int(ex[3][0], mval)
+                    return {"union": r_ | x_, "intersection": r_ & x_, "difference": r_ & ~x_ & MASK, "symmetric_difference": r_ ^ x_}[ex[1]]
+                raise Unknown("method .%s" % ex[1])
+            raise Unknown("expression %r" % (ex[0],))
+        raise Unknown("value %r" % (t,))
+
+    class ConcCtx(ClauseCtx):
+        def __init__(self, op, who, perm):
+            ClauseCtx.__init__(self, op)
+            self.probe.opaque_calls = set()
+            self.who, self.perm = who, perm
+
+        def leaf(self, node):
+            cs = "".join(sorted(node["cs"][1])) if node["t"] == "set" and node["cs"][0] == "in" else None
+            if cs == "agou":
+                return self.who
+            if cs == "rwx":
+                return self.perm
+            return ClauseCtx.leaf(self, node)
+
+    conc_cache = {}
+
+    def concrete(op, who, perm):
+        """(result from mode 0, result from mode 07777) of update(clause(who op perm), mode)"""
+        k_ = (op, who, perm)
+        if k_ not in conc_cache:
+            r = irval.run_parser_fn(pp, ConcCtx(op, who, perm))
+            if not (isinstance(r, tuple) and r and r[0] == "ok" and isinstance(r[1], tuple) and r[1][0] == "enum"):
+                raise Unknown("clause %s%s%s evaluates to %r" % (who, op, perm, r))
+            out = P.Probe(facts, None, upd.module).invoke(upd, r[1], [M0])
+            conc_cache[k_] = (tree_int(out, 0) & MASK, tree_int(out, MASK) & MASK)
+        return conc_cache[k_]
+
+    def strings(alpha, upto):
+        return ["".join(t_) for n_ in range(1, upto + 1) for t_ in itertools.product(alpha, repeat=n_)]
+
+    def letters_value(table, text):
+        v_ = 0
+        for ch in text:
+            v_ |= int(table[ch], 8)
+        return v_
+
+    conc_err = None
+    if (vfs["who"] is None or vfs["perm"] is None or len(clause) < 3) and order == ["who", "op", "perm"]:
+        try:
+            concrete("=", "u", "r")
+        except (Unknown, P.NoEval, P.Panic) as ex:
+            conc_err = str(ex)
+    else:
+        conc_err = "not needed"
+    if conc_err is None:
+        c.analysed["C08 clause evaluation"] = "concrete letters: every who/perm string of up to three letters"
+        for ch, val in list(posix["who"].items()) + list(posix["perm"].items()):
+            # the value of one letter, read off a clause that hands it through: `X=rwx` from mode 0 is who(X), `a=X` is perm(X)
+            try:
+                got = concrete("=", ch, "rwx")[0] if ch in posix["who"] else concrete("=", "a", ch)[0]
+            except (Unknown, P.NoEval, P.Panic) as ex:
+                got = None
+            wantv = int(val, 8) & 0o777
+            c.ob("C08.who-perm", "Permission::value", "'%s' → %s" % (ch, val), got == wantv, "clause `%s` applied to mode 0 gives %s; chmod: %s" % ("%s=rwx" % ch if ch in posix["who"] else "a=%s" % ch, oct(got) if got is not None else None, oct(wantv)), witness="-perm %s" % ("%s+r" % ch if ch in "ugoa" else "u+%s" % ch) if got != wantv else None)
+        bad, nstr = [], 0
+        try:
+            for w_ in strings("ugoa", 3):
+                nstr += 1
+                if concrete("=", w_, "rwx")[0] != letters_value(posix["who"], w_) & 0o777 and len(bad) < 3:
+                    bad.append("%s=rwx → %s" % (w_, oct(concrete("=", w_, "rwx")[0])))
+            for p_ in strings("rwx", 3):
+                nstr += 1
+                if concrete("=", "a", p_)[0] != letters_value(posix["perm"], p_) & 0o777 and len(bad) < 3:
+                    bad.append("a=%s → %s" % (p_, oct(concrete("=", "a", p_)[0])))
+            ok_or, det_or = not bad, "every who string and every perm string of one to three letters (%d strings) evaluated through the clause parser and update(): each is the OR of its letters%s" % (nstr, "" if not bad else "; EXCEPT " + "; ".join(bad))
+        except (Unknown, P.NoEval, P.Panic) as ex:
+            ok_or, det_or = None, "not evaluable: %s" % ex
+        c.ob("C08.who-perm", "Permission::from_symbolic_str", "a who/perm string is the OR of its letters", ok_or, det_or)
+    elif vfs["who"] is None or vfs["perm"] is None:
+        c.ob("C08.who-perm", pp.key, "one letter → bits function", None, "letter functions applied by the clause parser: %s; %s; with concrete letters: %s" % ({r_: sorted(ks) for r_, ks in applied.items()}, clause_err, conc_err))
     else:
         from .. import roles as _roles
 
@@ -305,9 +411,33 @@ def run(c, facts, tier):
                 det_or = "not a bitwise expression of the letters: %s" % ex
         c.ob("C08.who-perm", "Permission::from_symbolic_str", "a who/perm string is the OR of its letters", ok_or, det_or)
     # ---------------------------------------------------------------- clause algebra
-    upd = facts.fn("PartialPermission::update")
     for op, ref in chmod["algebra"].items():
         inst = "operator '%s' ≡ %s" % (op, ref)
+        if conc_err is None:
+            diffs, nev = [], 0
+            try:
+                for w_ in strings("ugoa", 2):
+                    for p_ in strings("rwx", 2):
+                        t_all, l_all = letters_value(posix["who"], w_), letters_value(posix["perm"], p_)
+                        for mi, mval in enumerate((0, MASK)):
+                            got_all = concrete(op, w_, p_)[mi]
+                            want_all = pyeval(ref, mval, t_all, l_all, MASK)
+                            nev += 1
+                            if got_all == want_all:
+                                continue
+                            for bit in range(12):
+                                row = ((mval >> bit) & 1, (t_all >> bit) & 1, (l_all >> bit) & 1, (got_all >> bit) & 1, (want_all >> bit) & 1)
+                                if row[3] != row[4] and row not in diffs:
+                                    diffs.append(row)
+            except (Unknown, P.NoEval, P.Panic) as e:
+                c.ob("C08.algebra", pp.key, inst, None, "expression not evaluable: %s" % e)
+                continue
+            wit = None
+            if diffs:
+                m_, t_, l_, got, want = diffs[0]
+                wit = {"+": "-perm u+r", "-": "-perm u+rwx,u-r  (chmod: 0300)", "=": "-perm a+rwx,u=r"}[op] + "  — truth-table row (mode,who,perm)=(%d,%d,%d): code gives %d, chmod %d" % (m_, t_, l_, got, want)
+            c.ob("C08.algebra", "PartialPermission", inst, not diffs, "%d clauses (who and perm strings of one or two letters, from mode 0 and mode 07777) evaluated through the clause parser and update(): %d (mode, who, perm) bit classes differ from chmod%s" % (nev, len(diffs), (" " + str(sorted(diffs))) if diffs else ""), witness=wit, facts={"rows": 8, "differ": sorted(diffs)})
+            continue
         if op not in clause:
             c.ob("C08.algebra", pp.key, inst, None, "clause with operator %r could not be evaluated: %s" % (op, clause_err.get(op)))
             continue
